@@ -9,6 +9,11 @@ COMMON_NOTE = ("Trusted: Coq 8.16.1 kernel and its VM (vm_compute; no native_com
                "(virtual clock, scheduler, canonicalisation, case printer). ")
 # id -> (text, note, technique, design_ref)
 CLAIMED = {
+ "C01": ("Refinement theorem: for every history (any length, instants, commands, purge passes anywhere) within capacity the Gallina image of "
+         "Memory returns exactly the results of the ideal TTL map; corollaries for the deadline instant, read-your-write and purge-insensitivity. "
+         "The image is compared with the real Memory / Cache('mem://') (results and raw key order after every command) under a virtual clock on every run.",
+         "Serializer treated as identity here (C09 proves the round trip); float arithmetic exact on the 1/16 s grid only; values immutable; eviction excluded (C11).",
+         "Coq refinement proof (simulation by induction over histories) + differential correspondence under virtual time", "3/C01"),
  "C18": ("Theorems (all arrays, indexes, widths, amounts; all element lists) proved in Coq about a line-by-line Gallina image of "
          "_bitarray.py, get_indexes and the bloom add/query logic; the image is run against the real code on generated op sequences on every check.",
          "Hash functions enter as recorded tables; get_indexes termination assumed (fuel); params_for's float formula not modelled (m,k read from the code).",
